@@ -162,7 +162,10 @@ def run(case, res):
     if case.get('prior_default') is not None:
         # somebody simulated this very block before, with another default_value
         try:
-            for cls in (pyrtl.FastSimulation, pyrtl.Simulation):
+            earlier = [pyrtl.FastSimulation, pyrtl.Simulation]
+            if any(l.startswith('compiled') for l in case['labels']):
+                earlier.append(pyrtl.CompiledSimulation)
+            for cls in earlier:
                 s0 = cls(tracer=pyrtl.SimulationTrace('all', block=live.block), block=live.block,
                          default_value=case['prior_default'])
                 s0.step({w.name: 0 for w in live.block.wirevector_subset(pyrtl.Input)})
